@@ -7,6 +7,7 @@ import (
 	"errors"
 	"fmt"
 	"net"
+	"runtime"
 	"sync"
 	"time"
 )
@@ -119,9 +120,9 @@ func (p *memPC) pause(d time.Duration) {
 
 // waitSent blocks until n datagrams have been written (true) or d of wall-clock time elapsed (false).
 func (p *memPC) waitSent(n int, d time.Duration) bool {
-	t := time.AfterFunc(d, func() { p.mu.Lock(); p.cond.Broadcast(); p.mu.Unlock() })
+	end := time.Now().Add(d) // before the timer is armed: the wake-up must find the end passed
+	t := time.AfterFunc(d+time.Millisecond, func() { p.mu.Lock(); p.cond.Broadcast(); p.mu.Unlock() })
 	defer t.Stop()
-	end := time.Now().Add(d)
 	p.mu.Lock()
 	defer p.mu.Unlock()
 	for len(p.out) < n {
@@ -149,9 +150,9 @@ func (p *memPC) inject(b []byte, a net.Addr) {
 // waitDrained blocks until the server has taken every injected datagram and is blocked in the
 // next ReadFrom (or d elapsed: false).
 func (p *memPC) waitDrained(d time.Duration) bool {
-	t := time.AfterFunc(d, func() { p.mu.Lock(); p.cond.Broadcast(); p.mu.Unlock() })
+	end := time.Now().Add(d) // before the timer is armed: the wake-up must find the end passed
+	t := time.AfterFunc(d+time.Millisecond, func() { p.mu.Lock(); p.cond.Broadcast(); p.mu.Unlock() })
 	defer t.Stop()
-	end := time.Now().Add(d)
 	p.mu.Lock()
 	defer p.mu.Unlock()
 	for !(len(p.in) == 0 && p.waiting) {
@@ -161,6 +162,42 @@ func (p *memPC) waitDrained(d time.Duration) bool {
 		p.cond.Wait()
 	}
 	return true
+}
+
+// holdReport is called from inside MsgInvalidFunc and keeps the callback from returning until the
+// serve loop has gone on reading: two more datagrams taken from the queue (the first of them may
+// have been read into a buffer the loop held before the call began), or the loop parked in ReadFrom
+// with nothing left to read. By then a receive buffer that went back to the pool too early has been
+// handed out and filled again. The report about a datagram shorter than a header is delivered on the
+// serve loop's own goroutine by the library as it stands - nothing can move meanwhile - so there
+// the wait is a few scheduler yields. The bound (50 ms) only ends the wait; the caller compares
+// octets, never times. Returns whether the loop did read on during the call.
+func (p *memPC) holdReport(short bool) bool {
+	p.mu.Lock()
+	r0 := p.reads
+	p.mu.Unlock()
+	if short {
+		for i := 0; i < 8; i++ {
+			runtime.Gosched()
+			p.mu.Lock()
+			moved := p.reads != r0
+			p.mu.Unlock()
+			if moved {
+				return true
+			}
+		}
+		return false
+	}
+	// the loop may also be gone (Shutdown follows as soon as the socket is drained): then nothing reads on
+	timedOut := false
+	t := time.AfterFunc(50*time.Millisecond, func() { p.mu.Lock(); timedOut = true; p.cond.Broadcast(); p.mu.Unlock() })
+	defer t.Stop()
+	p.mu.Lock()
+	defer p.mu.Unlock()
+	for p.reads < r0+2 && !(len(p.in) == 0 && p.waiting) && !p.closed && !p.clock.expired(p.rdl) && !timedOut {
+		p.cond.Wait()
+	}
+	return p.reads > r0
 }
 
 func (p *memPC) sent() []dgram {
